@@ -5,6 +5,8 @@ cd "$(dirname "$0")/.."
 d="seeded/$1"; shift
 [ -f "$d/patch.diff" ] || { echo "no $d/patch.diff"; exit 2; }
 [ -z "$(git -C /repo status --porcelain)" ] || { echo "/repo dirty"; exit 2; }
+# evidence/ must only ever hold results from the unchanged tree: keep it aside while /repo is patched
+rm -rf .work/evidence.keep && cp -r evidence .work/evidence.keep
 git -C /repo apply "$PWD/$d/patch.diff" || exit 2
 res=""
 for id in "$@"; do
@@ -18,6 +20,7 @@ for id in "$@"; do
     rm -f "$d/.stderr-$id"
 done
 git -C /repo checkout -- . && git -C /repo clean -fdq -- kiki kiki_e2e_test
+rm -rf evidence && mv .work/evidence.keep evidence
 python3 - "$d/checks_quick.json" "{${res%, }}" <<'PY'
 import json, sys, os
 path, new = sys.argv[1], json.loads(sys.argv[2])
